@@ -311,13 +311,48 @@ static std::string opMapMode(const vh::Case& c) {
 	return mapModeArch<MsgPack::MsgPackArchive>(c);
 }
 
+// ---- XML attributes (C08 conformance, C04 numeric loads).  op=xattr mode=save|load ...
+struct XAttr {
+	int64_t ai = 0; std::string as; bool ab = false; double af = 0; uint8_t au8 = 0; int16_t ai16 = 0; uint32_t au32 = 0; float af32 = 0; std::string body;
+	template <class A> void Serialize(A& archive) {
+		archive << AttributeValue("ai", ai) << AttributeValue("as", as) << AttributeValue("ab", ab) << AttributeValue("af", af)
+			<< AttributeValue("au8", au8) << AttributeValue("ai16", ai16) << AttributeValue("au32", au32) << AttributeValue("af32", af32) << KeyValue("body", body);
+	}
+};
+static std::string opXAttr(const vh::Case& c) {
+	XAttr x;
+	SerializationOptions opt;
+	opt.mismatchedTypesPolicy = c.get("mis", "throw") == "skip" ? MismatchedTypesPolicy::Skip : MismatchedTypesPolicy::ThrowError;
+	opt.overflowNumberPolicy = c.get("ovf", "throw") == "skip" ? OverflowNumberPolicy::Skip : OverflowNumberPolicy::ThrowError;
+	opt.formatOptions.enableFormat = c.geti("fmt", 0) != 0;
+	std::string out = "ok", code, what, bytes;
+	try {
+		if (c.get("mode") == "save") {
+			x.ai = c.geti("ai", 0); x.as = c.bytes("as"); x.ab = c.geti("ab", 0) != 0; x.au8 = uint8_t(c.geti("au8", 0)); x.ai16 = int16_t(c.geti("ai16", 0)); x.au32 = uint32_t(c.getu("au32", 0));
+			uint64_t fb = strtoull(c.get("af", "0").c_str(), nullptr, 16); memcpy(&x.af, &fb, 8);
+			uint32_t f32b = uint32_t(strtoul(c.get("af32", "0").c_str(), nullptr, 16)); memcpy(&x.af32, &f32b, 4);
+			x.body = c.bytes("body");
+			SaveObject<Xml::PugiXml::XmlArchive>(x, bytes, opt);
+		} else {
+			x.ai = 0x5A5A5A5A5A5A5A5ALL; x.as = "~sentinel~"; x.ab = true; x.af = 1234.5; x.au8 = 0x5A; x.ai16 = 0x5A5A; x.au32 = 0x5A5A5A5Au; x.af32 = 1234.5f; x.body = "~sentinel~";
+			LoadObject<Xml::PugiXml::XmlArchive>(x, c.bytes("doc"), opt);
+		}
+	}
+	catch (const SerializationException& ex) { out = "exc"; code = Convert::ToString(ex.GetErrorCode()); what = ex.what(); }
+	catch (const std::exception& ex) { out = "exc"; code = "std"; what = ex.what(); }
+	uint64_t fb; memcpy(&fb, &x.af, 8); uint32_t f32b; memcpy(&f32b, &x.af32, 4);
+	char hb[40]; snprintf(hb, sizeof hb, "%016llx", (unsigned long long)fb); char hb32[16]; snprintf(hb32, sizeof hb32, "%08x", f32b);
+	return vh::JObj().str("id", c.get("id")).str("out", out).str("code", code).str("what", what.substr(0, 200)).str("bytes", vh::hex(bytes))
+		.num("ai", x.ai).str("as", vh::hex(x.as)).boolean("ab", x.ab).str("af", hb).num("au8", x.au8).num("ai16", x.ai16).num("au32", x.au32).str("af32", hb32).str("body", vh::hex(x.body)).done();
+}
+
 int main() {
 	std::string line;
 	while (std::getline(std::cin, line)) {
 		if (line.empty()) continue;
 		auto c = vh::Case::parse(line);
 		std::string out;
-		try { out = c.get("op") == "mapmode" ? opMapMode(c) : opRun(c); }
+		try { out = c.get("op") == "mapmode" ? opMapMode(c) : c.get("op") == "xattr" ? opXAttr(c) : opRun(c); }
 		catch (const std::exception& ex) { out = vh::JObj().str("id", c.get("id")).str("error", std::string("driver exception: ") + ex.what()).done(); }
 		std::cout << out << "\n" << std::flush;
 	}
